@@ -14,14 +14,22 @@ CONFIG = {
     "theorems": [
         "V.C06.columns_eq_spec", "V.C06.required_eq_spec", "V.C06.verify_iff", "V.C06.verify_iff_spec",
         "V.C06.undeterminable_rejects", "V.C06.others_irrelevant", "V.C06.one_bad_fails", "V.C06.bad_sender_rejects",
-        "V.C06.no_panic", "V.C06.pseudo_sender_required", "V.C06.pseudo_mapping_signers_valid",
-        "V.C06Ring.verify_with_keyring_sound", "V.C06Ring.verify_with_keyring_one_bad", "V.C06Ring.verify_with_keyring_complete",
-    ] + [t for t in _C12.CONFIG["theorems"] if not any(k in t for k in ("checkKeys", "checkVerifyKeys", "publicKey_source", "mapServerKeys", "fetchKeysForServer", "fetchNotaryKeys", "perspective", "fetcher_accepts", "direct_accepts", "notaryValid", "past_valid_until"))],
+        "V.C06.no_panic", "V.C06.pseudo_sender_required", "V.C06.pseudo_mapping_signers_valid", "V.C06.pseudo_foreign_mapping_rejected",
+        "V.C06.membership_eq_auth_reading", "V.C06.auth_authoriser_required", "V.C06.memberContent_eq_spec", "V.C06.memberContent_eq_auth",
+        "V.C06Ring.verify_with_keyring_sound", "V.C06Ring.verify_with_keyring_sound_validAt", "V.C06Ring.verify_with_keyring_one_bad",
+        "V.C06Ring.verify_with_keyring_complete",
+    ] + [t for t in _C12.CONFIG["theorems"] if not any(k in t for k in ("checkKeys", "checkVerifyKeys", "publicKey_", "mapServerKeys", "fetchKeysForServer", "fetchNotaryKeys", "perspective", "fetcher_accepts", "direct_accepts", "notaryValid", "past_valid_until"))],
     "rule": "events of every membership (join/invite/leave/ban/knock/odd) and non-member types x all 16 room versions; senders, "
             "state keys and join_authorised_via_users_server on several domains (ports, IP literals, punycode), malformed IDs "
             "(no sigil, no colon, empty server), non-string / null / case-variant members, v1/v2 event IDs naming other servers or "
             "malformed; pseudo-ID (msc4014) events really signed with generated ed25519 sender / invitee keys (absent, other key ID, "
-            "corrupted), mxid_mapping absent / unsigned / signed by the user's server / by another server / ill-typed; for each event a probe run learns which servers are asked, then EVERY subset of them answers valid while "
+            "corrupted), mxid_mapping absent / unsigned / signed by the user's server / by another server / ill-typed / FOR ANOTHER KEY than the sender (K3); "
+            "member contents written as raw JSON text (member order kept, not canonicalised) with other spellings of `membership` / "
+            "`join_authorised_via_users_server` (Capitalised, UPPER, U+017F, one letter) alone and next to the exact name, before or after it, "
+            "with other values, and the exact name twice (K1 / K2: every fifth event, mostly in restricted-join versions); op member_reading "
+            "compares NewMemberContentFromEvent (the reading of the auth rules: membership, authoriser) with the exact-name reading, and op verify "
+            "reports `ok:authoriser-of-the-auth-rules-not-required` (never an answer of the specification) when an event verified as a join "
+            "whose authoriser, as the real NewMemberContentFromEvent reads it, had not to sign; for each event a probe run learns which servers are asked, then EVERY subset of them answers valid while "
             "the rest fail, with unrelated servers answering either way; the scripted JSONVerifier records server, timestamp, "
             "validity rule and whether the message is RedactEventJSON(event). Every op is a distinct (event, verifier script) pair; "
             "distinct by op line",
@@ -31,8 +39,11 @@ CONFIG = {
         "model (verify_with_keyring_sound / _complete compose the two) whose correspondence (keyring.verify_jsons ops) runs here too; "
         "the signature check itself is C02; redaction is C05's "
         "model — the correspondence checks that the message handed to the verifier is RedactEventJSON(event JSON)",
-        "gjson.GetBytes(content, key).String(), encoding/json struct decoding of {membership}, spec.NewUserID(sender, true) "
-        "modelled (VModel.Signers / VModel.Event)",
+        "encoding/json decoding of the content into map[string]RawMessage / {membership} / MemberContent after exactFieldsOnly, "
+        "spec.NewUserID(sender, true) modelled (VModel.Signers / VModel.Event)",
+        "the auth rules' side of the tie (auth_authoriser_required) is NewMemberContentFromEvent as modelled by Signers.memberContent and "
+        "compared with the real function by op member_reading; VModel/Auth.lean's decodeMemberContent (C07) is related to it by "
+        "memberContent_eq_auth",
     ],
     "assumptions": [
         "userIDForSender is the standard resolver spec.NewUserID(sender, true); a (nil, nil) answer ('no sender signature needed') "
@@ -40,7 +51,11 @@ CONFIG = {
         "the verifier returns one result per request (its documented contract)",
         "room version org.matrix.msc4014 (pseudo IDs) has its own model (verifyPseudo): JSONVerifierSelf is an oracle selfValid(name) "
         "computed by the generator with VerifyJSON over RedactEventJSON(event) (C02, C05); the specification stream demands, for a "
-        "join, a valid mxid_mapping signature of the server of mxid_mapping.user_id (the sender's server) and is silent otherwise",
+        "join, that the sender's own key signed, that mxid_mapping.user_room_key IS the sender (K3) and a valid mxid_mapping signature of the "
+        "server of mxid_mapping.user_id (the sender's server), and is silent otherwise",
+        "a content that has the name `membership` or `join_authorised_via_users_server` TWICE is outside the property (unspecified: not a "
+        "JSON object in the proper sense; the untrusted constructors refuse such events); the code and the model take the last one, "
+        "as the auth rules do",
         "outside the claim (observed, not judged): in an msc4014 room the server named by join_authorised_via_users_server is handed to "
         "JSONVerifierSelf, which base64-decodes the SERVER NAME as a public key, so a restricted join can never verify there",
     ],
